@@ -3,6 +3,8 @@ CONSTANTS
   NStmt = 2
   Patterns <- PatQuick
   TailPatterns <- TailQuick
+  JoinOpts <- JoinAll
+  EatOpts <- EatQuick
   LeadModes <- LeadAll
   TrailModes <- TrailAll
 INVARIANTS Accept Reject AllClausesSeen
